@@ -6,8 +6,10 @@ use crate::orch::{conclude, run_workers, CheckSpec, Ctx, Out, Tier, WorkerPlan};
 
 pub mod c01;
 pub mod c04;
+pub mod c06;
 pub mod c07;
 pub mod c08;
+pub mod c10;
 pub mod c14;
 pub mod c20;
 pub mod crash;
@@ -31,6 +33,8 @@ pub fn get(id: &str) -> Option<Check> {
         "C07" => Some(c07::check()),
         "C08" => Some(c08::check()),
         "C04" => Some(c04::check()),
+        "C06" => Some(c06::check()),
+        "C10" => Some(c10::check()),
         "C02" => Some(seqchecks::check("C02")),
         "C05" => Some(seqchecks::check("C05")),
         "C12" => Some(seqchecks::check("C12")),
